@@ -14,6 +14,7 @@ pub mod c03;
 pub mod c04;
 pub mod c05;
 pub mod c06;
+pub mod c11;
 pub mod c14;
 pub mod c15;
 
@@ -305,10 +306,13 @@ pub fn run_case(prop: &dyn Property, base_seed: u64, case: u64, tier: Tier, repl
         scn.est_len = scn.est_len.max(50);
     }
     if case % 97 == 0 || rep.sample.is_none() && case < 2 {
+        let mut vr = Rng::new(case_seed ^ 0x5a);
+        let ops = prop.variant_ops(&scn, &mut vr).unwrap_or_else(|| scn.ops.clone());
+        let expect_s = scn.expect.to_string();
         rep.sample = Some(serde_json::json!({
             "family": scn.family,
-            "source": scn.ops.iter().map(op_source).collect::<Vec<_>>(),
-            "expect": scn.expect,
+            "script": ops.iter().map(op_source).collect::<Vec<_>>(),
+            "expect": if expect_s.len() > 1200 { serde_json::Value::String(format!("{}…", expect_s.chars().take(1200).collect::<String>())) } else { scn.expect.clone() },
             "reference_outs": refdata.as_ref().map(|r| format!("{:?}", r.outs)),
         }));
     }
@@ -588,6 +592,7 @@ pub fn lookup(id: &str) -> Option<Box<dyn Property>> {
         "C04" => Some(Box::new(c04::C04)),
         "C05" => Some(Box::new(c05::C05)),
         "C06" => Some(Box::new(c06::C06)),
+        "C11" => Some(Box::new(c11::C11)),
         "C14" => Some(Box::new(c14::C14)),
         "C15" => Some(Box::new(c15::C15)),
         _ => None,
